@@ -9,7 +9,8 @@ RULE = ("every class layout of length 0..L over 3 classes (declared class count 
         "occur) x the full small parameter grid of every subset-family wrapper (class filter, percent filter, subset, shuffle, "
         "repeat, oversampling, sort-by-class, intra-class shuffle, few-shot, class-wise subset); selected sample ids compared "
         "with a per-wrapper specification (exact where documented, relational - contiguity, monotonicity, complementary "
-        "partition - where rounding is undocumented); constructors run under a CPU-time horizon; distinct = distinct "
+        "partition - where rounding is undocumented); every wrapper also stacked on a reversing sub-selection of a larger root "
+        "(layouts up to length 4); constructors run under a CPU-time horizon; distinct = distinct "
         "(wrapper, parameters, layout, selected ids) with a non-empty selection")
 
 PERCENTS = (None, 0, 0.0, .15, .2, 1 / 3, .5, .99, 1, 1.0)
@@ -73,6 +74,7 @@ def lib():
 
 
 REJECT = (AssertionError, NotImplementedError, ValueError)
+STACKED = [False]  # True: the wrapper under test does not wrap the root dataset but a reversing sub-selection of a larger root
 
 
 def construct(name, layout, kwargs, rng_state=0):
@@ -81,7 +83,13 @@ def construct(name, layout, kwargs, rng_state=0):
     np = L["np"]
     np.random.seed(1000 + rng_state)
     L["torch"].manual_seed(1000 + rng_state)
-    ds = L["ClsDS"](layout)
+    n = len(layout)
+    if STACKED[0]:
+        # root: [extra class-0 sample] + reversed(layout) + [extra class-2 sample]; the view below the wrapper under test selects
+        # root ids n, n-1, ..., 1 - so position i of the view is root sample n - i and has class layout[i]
+        ds = L["dw"].SubsetWrapper(L["ClsDS"]([0] + list(reversed(layout)) + [2]), indices=[n - i for i in range(n)])
+    else:
+        ds = L["ClsDS"](layout)
     cls = getattr(L["dw"], name, None)
     if cls is None:
         import importlib
@@ -91,6 +99,10 @@ def construct(name, layout, kwargs, rng_state=0):
     try:
         w = with_horizon(lambda: cls(ds, **kwargs))
         ids = [int(w.getitem_x(i)) for i in range(len(w))]
+        if STACKED[0]:
+            if any(not (1 <= r <= n) for r in ids):
+                return "crash", f"StackedSelection: sample ids {ids} outside the view below the wrapper (root ids 1..{n})"
+            ids = [n - r for r in ids]
         return "ok", ids
     except Horizon:
         return "hang", None
@@ -111,7 +123,9 @@ class Checker:
         self.n = len(layout)
 
     def bad(self, wrapper, what, kwargs, msg, extra=""):
-        self.p.violation(f"C03:{wrapper}:{what}{extra}", dict(wrapper=wrapper, layout=self.layout, kwargs=kwargs),
+        if STACKED[0]:
+            extra += "|stacked"
+        self.p.violation(f"C03:{wrapper}:{what}{extra}", dict(wrapper=wrapper, layout=self.layout, kwargs=kwargs, stacked=STACKED[0]),
                          f"{wrapper}({kwargs}) on classes {list(self.layout)}: {msg}")
 
     def get(self, wrapper, kwargs, rng_state=0, allow_reject=True):
@@ -119,7 +133,7 @@ class Checker:
         self.p.evaluations += 1
         if st == "ok":
             if val:
-                self.p.observe((wrapper, tuple(sorted((k, repr(v)) for k, v in kwargs.items())), self.layout, tuple(val)))
+                self.p.observe((wrapper, tuple(sorted((k, repr(v)) for k, v in kwargs.items())), self.layout, tuple(val), STACKED[0]))
             return val
         if st == "rejected":
             self.p.count(f"rejected:{wrapper}")
@@ -445,12 +459,14 @@ def unlabeled_layouts(maxlen):
 
 
 def task(args):
-    lays, which = args
+    lays, which = args[:2]
+    STACKED[0] = len(args) > 2 and bool(args[2])
     p = Partial()
     for lay in lays:
         c = Checker(p, lay)
         for name in which:
             getattr(c, name)()
+    STACKED[0] = False
     p.sample(dict(layout=list(lays[-1]), wrappers=list(which)))
     return p
 
@@ -464,13 +480,20 @@ def run(run):
     ulen = 4 if run.tier == "quick" else 6
     ulays = list(unlabeled_layouts(ulen))
     tasks += [(ulays[i:i + 8 * chunk], Checker.UNLABELED) for i in range(0, len(ulays), 8 * chunk)]
+    slen = 4 if run.tier == "quick" else 5
+    slays = [l for l in lays if len(l) <= slen]
+    stacked_methods = tuple(m for m in Checker.ALL if m != "class_filter_sparse")
+    tasks += [(slays[i:i + chunk], stacked_methods, True) for i in range(0, len(slays), chunk)]
     tasks.reverse()
     run.pmap(task, tasks)
+    run.extra.update(stacked_layout_len=f"0..{slen}")
     run.extra.update(unlabeled_layouts=len(ulays), unlabeled_layout_len=f"1..{ulen}")
     run.extra.update(bounds=dict(layout_len=f"0..{maxlen}", classes=3, percents=[repr(p) for p in PERCENTS],
                                  seeds=[None, 0, 1, 2], horizon_cpu_seconds=HORIZON_S), layouts=len(lays))
     run.assumptions += [
         "AssertionError / NotImplementedError / ValueError from a constructor count as explicit rejection",
+        "stacked: every wrapper is also built on a reversing sub-selection (SubsetWrapper with explicit indices) of a larger root "
+        "dataset whose extra samples carry other classes; the specification is then applied to the view, not to the root",
         "percent rounding is undocumented: only contiguity, monotonicity and complementary partition are required",
         "layouts with unlabeled (-1) samples are explored for the two wrappers whose treatment of them is established by the "
         "library (ClasswiseSubsetWrapper: unlabeled samples belong to no class; OversamplingWrapper(multiply): unchanged)",
@@ -481,6 +504,7 @@ def replay(case):
     p = Partial()
     c = Checker(p, tuple(case["layout"]))
     w = case["wrapper"]
+    STACKED[0] = bool(case.get("stacked"))
     if case.get("sparse"):
         c = Checker(p, tuple({3: 0, 500: 1, 700: 2}[v] for v in case["layout"]))
         c.class_filter_sparse()
